@@ -1259,6 +1259,55 @@ def rule_addressof(chk, prog, tier):
 
 # ------------------------------------------------------------------ C10.p restrict
 
+def declarator_runs(prog, fn, base, bq, decl):
+    QR, QC = ev(prog, 'QUALRESTRICT'), ev(prog, 'QUALCONST')
+    def runner(it):
+        w = World(prog, it=it, target='x86_64-sysv')
+        ft = it.call('mktype', [ev(prog, 'TYPEFUNC'), 0]); ft.obj.f.update({('base',): w.t('int'), ('qual',): 0, ('size',): 0, ('align',): 0, ('incomplete',): 0, ('u', 'func', 'params'): None, ('u', 'func', 'nparam'): 0, ('u', 'func', 'isvararg'): 0})
+        def flex(kind):
+            t_ = w.mkstruct(size=8, align=4, kind=kind); t_.obj.f[('flexible',)] = 1; return t_
+        def incomplete():
+            t_ = w.mkstruct(size=0, align=0); t_.obj.f[('incomplete',)] = 1; return t_
+        B = {'int': lambda: w.t('int'), 'void': lambda: w.t('void'), 'ptr': lambda: w.mkptr(w.t('int')), 'fptr': lambda: w.mkptr(ft), 'struct': lambda: w.mkstruct(size=8, align=4), 'func': lambda: ft,
+             'fam': lambda: flex('TYPESTRUCT'), 'ufam': lambda: flex('TYPEUNION'), 'incomplete': incomplete}[base]()
+        TK = {'*': 'TMUL', 'R': 'TRESTRICT', 'C': 'TCONST', 'x': 'TIDENT', '(': 'TLPAREN', ')': 'TRPAREN', '[': 'TLBRACK', ']': 'TRBRACK', '3': 'TNUMBER'}
+        toks = decl.split() + [';']
+        tokobj = it.gobj('tok'); st = {'i': 0}
+        def cur(): return toks[min(st['i'], len(toks) - 1)]
+        def load():
+            tokobj.f[('kind',)] = ev(prog, TK.get(cur(), 'TSEMICOLON'))
+            tokobj.f[('lit',)] = Ptr(it.mkstr(list(b'x'), 'x'), (0,)) if cur() == 'x' else None
+            tokobj.f[('loc', 'file')] = None; tokobj.f[('loc', 'line')] = 1; tokobj.f[('loc', 'col')] = 1
+        def nxt(i2, a, e): st['i'] += 1; load(); return None
+        def consume(i2, a, e):
+            if tokobj.f[('kind',)] == a[0] and cur() != '3': nxt(i2, a, e); return 1
+            return 0
+        def expect(i2, a, e):
+            if tokobj.f[('kind',)] != a[0]: raise Terminal('error', 'expected token')
+            nxt(i2, a, e); return None
+        def peek(i2, a, e):
+            k = toks[min(st['i'] + 1, len(toks) - 1)]
+            if k != '3' and ev(prog, TK.get(k, 'TSEMICOLON')) == a[0]: st['i'] += 2; load(); return 1
+            return 0
+        def assignexpr(i2, a, e):
+            if cur() != '3': raise Terminal('error', 'expected expression')
+            nxt(i2, a, e); return w.mkexpr('EXPRCONST', w.t('int'), u__constant__u=3)
+        def mkscope(i2, a, e):
+            o = Obj('scope', 'heap'); o.f[('parent',)] = a[0]; return Ptr(o, ())
+        it.models.update({'next': nxt, 'consume': consume, 'expect': expect, 'peek': peek, 'assignexpr': assignexpr, 'mkscope': mkscope, 'delscope': lambda i2, a, e: a[0].obj.f[('parent',)],
+                          'eval': lambda i2, a, e: a[0], 'attr': lambda i2, a, e: 0, 'gnuattr': lambda i2, a, e: 0, 'istypename': lambda i2, a, e: 0,
+                          'scopeputdecl': lambda i2, a, e: None, 'scopegetdecl': lambda i2, a, e: None,
+                          'xmalloc': lambda i2, a, e: Ptr(Obj('heap@%s' % e.get('line'), 'heap'), ()),
+                          'error': lambda i2, a, e: (_ for _ in ()).throw(Terminal('error', cmodel.fmt_of(i2, a, 1))),
+                          'fatal': lambda i2, a, e: (_ for _ in ()).throw(Terminal('fatal', cmodel.fmt_of(i2, a, 0)))})
+        load()
+        bqv = {'': 0, 'R': QR, 'C': QC}[bq]
+        nameobj = Obj('name', 'local'); nameobj.f[()] = None
+        it.call(fn, [Ptr(Obj('filescope', 'heap'), ()), StructVal({('type',): B, ('qual',): bqv, ('expr',): None}), Ptr(nameobj, ()), None, 0])
+        return cur()
+    return explore(prog, runner, {}, max_runs=4, on_unsupported='keep')
+
+
 def rule_restrict(chk, prog, tier):
     r = chk.rule('C10.p', 'only pointer types whose referenced type is an object (or incomplete) type may be restrict-qualified: restrict on an arithmetic type, on a pointer to function, or on the element of such an array is diagnosed wherever it '
                  'enters the declarator (specifier qualifiers, typedef names, pointer declarators); restrict-qualified object pointers, and const in the same places, are accepted',
@@ -1271,46 +1320,7 @@ def rule_restrict(chk, prog, tier):
              ('int', 'C', 'x', True), ('int', '', '* C x', True), ('int', '', '( * C x ) ( )', True), ('fptr', 'C', 'x', True), ('int', 'C', 'x [ 3 ]', True), ('ptr', 'R', '* x', True), ('fptr', 'R', '* x', False),
              ('void', '', '* R x', True), ('void', 'R', '* x', False)]
     for base, bq, decl, ok in CASES:
-        def runner(it):
-            w = World(prog, it=it, target='x86_64-sysv')
-            ft = it.call('mktype', [ev(prog, 'TYPEFUNC'), 0]); ft.obj.f.update({('base',): w.t('int'), ('qual',): 0, ('size',): 0, ('align',): 0, ('incomplete',): 0, ('u', 'func', 'params'): None, ('u', 'func', 'nparam'): 0, ('u', 'func', 'isvararg'): 0})
-            B = {'int': w.t('int'), 'void': w.t('void'), 'ptr': w.mkptr(w.t('int')), 'fptr': w.mkptr(ft), 'struct': w.mkstruct(size=8, align=4)}[base]
-            TK = {'*': 'TMUL', 'R': 'TRESTRICT', 'C': 'TCONST', 'x': 'TIDENT', '(': 'TLPAREN', ')': 'TRPAREN', '[': 'TLBRACK', ']': 'TRBRACK', '3': 'TNUMBER'}
-            toks = decl.split() + [';']
-            tokobj = it.gobj('tok'); st = {'i': 0}
-            def cur(): return toks[min(st['i'], len(toks) - 1)]
-            def load():
-                tokobj.f[('kind',)] = ev(prog, TK.get(cur(), 'TSEMICOLON'))
-                tokobj.f[('lit',)] = Ptr(it.mkstr(list(b'x'), 'x'), (0,)) if cur() == 'x' else None
-                tokobj.f[('loc', 'file')] = None; tokobj.f[('loc', 'line')] = 1; tokobj.f[('loc', 'col')] = 1
-            def nxt(i2, a, e): st['i'] += 1; load(); return None
-            def consume(i2, a, e):
-                if tokobj.f[('kind',)] == a[0] and cur() != '3': nxt(i2, a, e); return 1
-                return 0
-            def expect(i2, a, e):
-                if tokobj.f[('kind',)] != a[0]: raise Terminal('error', 'expected token')
-                nxt(i2, a, e); return None
-            def peek(i2, a, e):
-                k = toks[min(st['i'] + 1, len(toks) - 1)]
-                if k != '3' and ev(prog, TK.get(k, 'TSEMICOLON')) == a[0]: st['i'] += 2; load(); return 1
-                return 0
-            def assignexpr(i2, a, e):
-                if cur() != '3': raise Terminal('error', 'expected expression')
-                nxt(i2, a, e); return w.mkexpr('EXPRCONST', w.t('int'), u__constant__u=3)
-            def mkscope(i2, a, e):
-                o = Obj('scope', 'heap'); o.f[('parent',)] = a[0]; return Ptr(o, ())
-            it.models.update({'next': nxt, 'consume': consume, 'expect': expect, 'peek': peek, 'assignexpr': assignexpr, 'mkscope': mkscope, 'delscope': lambda i2, a, e: a[0].obj.f[('parent',)],
-                              'eval': lambda i2, a, e: a[0], 'attr': lambda i2, a, e: 0, 'gnuattr': lambda i2, a, e: 0, 'istypename': lambda i2, a, e: 0,
-                              'scopeputdecl': lambda i2, a, e: None, 'scopegetdecl': lambda i2, a, e: None,
-                              'xmalloc': lambda i2, a, e: Ptr(Obj('heap@%s' % e.get('line'), 'heap'), ()),
-                              'error': lambda i2, a, e: (_ for _ in ()).throw(Terminal('error', cmodel.fmt_of(i2, a, 1))),
-                              'fatal': lambda i2, a, e: (_ for _ in ()).throw(Terminal('fatal', cmodel.fmt_of(i2, a, 0)))})
-            load()
-            bqv = {'': 0, 'R': QR, 'C': QC}[bq]
-            nameobj = Obj('name', 'local'); nameobj.f[()] = None
-            it.call(fn, [Ptr(Obj('filescope', 'heap'), ()), StructVal({('type',): B, ('qual',): bqv, ('expr',): None}), Ptr(nameobj, ()), None, 0])
-            return cur()
-        runs = explore(prog, runner, {}, max_runs=4, on_unsupported='keep')
+        runs = declarator_runs(prog, fn, base, bq, decl)
         BN = {'int': 'int', 'void': 'void', 'ptr': 'P /* int * */', 'fptr': 'FP /* int (*)(void) */', 'struct': 'struct s'}[base]
         key = 'restrict:%s%s %s' % ({'': '', 'R': 'restrict ', 'C': 'const '}[bq], BN, decl.replace('R', 'restrict').replace('C', 'const'))
         if len(runs) != 1 or runs[0].outcome not in ('return', 'terminal:error'):
@@ -1318,6 +1328,29 @@ def rule_restrict(chk, prog, tier):
         got_ok = runs[0].outcome == 'return'
         if got_ok and runs[0].value != ';': raise AnalysisBroken('%s: declarator not consumed (at %s)' % (key, runs[0].value))
         r.instance(got_ok == ok, key, 'decl.c:declarator', 'must be %s; cproc %s %s' % ('accepted' if ok else 'diagnosed', 'accepts it' if got_ok else 'diagnoses it:', '' if got_ok else runs[0].detail))
+    r.exhaustive = False
+
+
+# ------------------------------------------------------------------ C10.ab array element types
+
+def rule_array_elements(chk, prog, tier):
+    r = chk.rule('C10.ab', 'the element type of an array is a complete object type (6.7.6.2p1) that is not a structure with a flexible array member nor a union containing one (6.7.2.1p3): arrays of void, of an incomplete structure, '
+                 'of functions and of such structures are diagnosed - also behind a pointer declarator, `(*x)[3]` - while arrays of pointers to any of them are accepted',
+                 floor=20, oracle='C11 6.7.6.2p1, 6.7.2.1p3')
+    fn = prog.require_func('declarator', 'decl.c')
+    BN = {'int': 'int', 'void': 'void', 'struct': 'struct s', 'incomplete': 'struct incomplete', 'func': 'F /* int(void) */', 'fam': 'struct fam /* { int n; int a[]; } */', 'ufam': 'union ufam /* { struct fam f; int x; } */'}
+    GOOD = {'int', 'struct'}
+    for base in BN:
+        for decl, elem_is_base in (('x [ 3 ]', True), ('x [ 3 ] [ 3 ]', True), ('( * x ) [ 3 ]', True), ('x [ ]', True), ('* x [ 3 ]', False), ('* x', False)):
+            if base == 'func' and decl == '* x [ 3 ]': pass
+            ok = (base in GOOD) or not elem_is_base
+            runs = declarator_runs(prog, fn, base, '', decl)
+            key = 'array-element:%s %s' % (BN[base], decl)
+            if len(runs) != 1 or runs[0].outcome not in ('return', 'terminal:error'):
+                raise AnalysisBroken('%s: %s' % (key, [(x.outcome, x.detail) for x in runs][:2]))
+            got_ok = runs[0].outcome == 'return'
+            if got_ok and runs[0].value != ';': raise AnalysisBroken('%s: declarator not consumed (at %s)' % (key, runs[0].value))
+            r.instance(got_ok == ok, key, 'decl.c:declarator', 'must be %s; cproc %s %s' % ('accepted' if ok else 'diagnosed', 'accepts it' if got_ok else 'diagnoses it:', '' if got_ok else runs[0].detail))
     r.exhaustive = False
 
 
@@ -1803,6 +1836,7 @@ def run(chk, tier):
     chk.guard('C10.y', lambda: rule_redeclared_kind(chk, prog, tier))
     chk.guard('C10.z', lambda: rule_deref_qualifiers(chk, prog, tier))
     chk.guard('C10.z2', lambda: rule_member_qualifiers(chk, prog, tier))
+    chk.guard('C10.ab', lambda: rule_array_elements(chk, prog, tier))
     from props import c12
     chk.guard('C12.b', lambda: c12.rule_redef(chk, prog, tier))             # 6.10.3p2 is a constraint: an incompatible macro redefinition must be diagnosed
     from props import c09
